@@ -29,7 +29,7 @@ CHECKS = {
     "C08": (
         "E2-history",
         "For every DSL-built tree of the element family and every parsed lattice schema (depth<=2 + wrappers + object core), all validate(v) transitions over the value alphabet are executed; each successor state (full canonical snapshot incl. private attributes, aliasing and registries) must equal its predecessor, so each tree's reachable set is one state; inputs unchanged; serializations unchanged; repetition round and depth-2 pair histories compared with a pristine tree.",
-        "trusted: mc/impl.snapshot completeness (hedged by the depth-2 differential); value alphabets as stated",
+        "accepted results are fed back as inputs (bare and nested) into the same element and probe elements; trusted: mc/impl.snapshot completeness (hedged by the depth-2 differential); value alphabets as stated",
         "explicit-state exploration of call histories with full-snapshot state comparison (all transitions must be self-loops)",
     ),
     "C10": (
@@ -41,7 +41,7 @@ CHECKS = {
     "C13": (
         "E2-history",
         "Breadth-first search over all operation histories up to depth 3 (quick) / 4 (thorough) on six kinds of live objects (untyped element, element with properties, String, Array, model class, subclass) with an alphabet of keyword assignments, property add/replace/delete/wholesale assignment and validation calls; in every state the live object's verdict+result vector over 28 probes equals that of a freshly constructed object carrying the reference model's configuration.",
-        "trusted: the reference config model in mc/checks/c13.py; operation alphabet and depth bound as stated",
+        "two payload objects live as long as the history (validated again as the same object); trusted: the reference config model in mc/checks/c13.py; operation alphabet and depth bound as stated",
         "explicit-state BFS over reconfiguration/validation histories on real objects, differential against a freshly built twin in every state",
     ),
     "C15": (
@@ -53,7 +53,7 @@ CHECKS = {
     "C14": (
         "E3-schedule",
         "Real threads validating on one shared tree are run under a baton scheduler whose scheduling points are trace events inside statham files; all schedules with <=1 preemption at line granularity (quick: 5 harnesses; thorough: 11) and at call/backward-jump granularity (4 harnesses, one with 3 threads), and all schedules with <=2 preemptions at call/backward-jump granularity on small harnesses (thorough: complete for T1, T3; quick: a seed-rotated slice of first preemption points for T3) are executed to completion; each thread's verdict/result must equal its sequential run and the tree snapshot must be unchanged; replayed prefixes must not diverge.",
-        "trusted: mc/sched.py (determinism probe replays one schedule twice per harness before exploring; divergence is a hard error); intra-line switches and C-extension internals are atomic; two preemptions at line granularity are not claimed",
+        "trusted: mc/sched.py (determinism probe replays one schedule twice per harness before exploring; divergence is a hard error); intra-line switches and C-extension internals are atomic; two preemptions are explored only at call granularity (H9) and inside single components (format / exception modules, H10 H11); two preemptions at line granularity for whole validations are not claimed",
         "stateless model checking of thread interleavings with iterative context bounding on the real code (sys.settrace scheduling points, semaphore baton)",
     ),
     "C03": (
@@ -65,7 +65,7 @@ CHECKS = {
     "C05": (
         "E1-lattice",
         "The full product of 5 declaration forms x property sets over plain and renamed names x 14 (kind, default) options (none, valid, invalid, falsy, nested-object, required+default) x 4 additionalProperties options x all subsets of supplied members is executed and every member of the resulting model compared with a dict reference model; every element of the DSL family is also called with no value.",
-        "trusted: the dict reference model in mc/checks/c05.py; validity of a default is judged differentially by supplying it explicitly",
+        "trusted: the dict reference model in mc/checks/c05.py; every ordered pair of property options is also run as the first use of the library in a process of its own (fork-server, 800+ processes); a result that was edited in place by its owner must not reach the next construction; validity of a default is judged differentially by supplying it explicitly",
         "exhaustive enumeration of object declarations x supplied-member subsets on the real code, dict reference model",
     ),
     "C06": (
@@ -77,7 +77,7 @@ CHECKS = {
     "C07": (
         "E1-lattice",
         "The full product 13 contexts x 20 inner shapes x 14 default values x {with, without a second default} and 6 class positions x a 42-string description alphabet is run through the real parser, both serializers and exec of the generated module; the element at the declaring position must carry exactly the default, the multiset of defaults must be preserved in the tree, the JSON document and the generated classes, no container default may be shared by identity, descriptions must arrive character for character.",
-        "trusted: position accessors in mc/checks/c07.py; one ambiguous shape (one-branch composition with two competing defaults) and lone surrogates are excluded, as stated",
+        "trusted: position accessors in mc/checks/c07.py; for a one-member composition with two competing defaults only the outer (schema/property level) default is judged; lone surrogates are excluded; 912 (context, shape, default) cases are repeated one per pristine process",
         "exhaustive enumeration of default/description placements on the real parser and serializers, positional + multiset oracle",
     ),
     "C16": (
